@@ -51,7 +51,13 @@ def generate(rng, tier, index):
         name = rng.choice(peers.POLICIES)
         sc["policy"] = {"name": name, "seed": rng.randrange(1000), "stride": rng.choice([1, 2, 3, 7])}
         sc["fmt"] = {"order": rng.choice(["java", "byid", "shuffled"]), "seed": rng.randrange(1000), "final_newline": rng.random() < 0.7}
-    decls = refsem.gen_decls(rng, max_vars=rng.randint(1, 6), cap=1024, allow_wide=rng.random() < 0.1)
+    decls = refsem.gen_decls(
+        rng,
+        max_vars=rng.randint(1, 6) if rng.random() < 0.85 else rng.randint(7, 11),
+        cap=1024,
+        allow_wide=rng.random() < 0.1,
+        pad_to=rng.choice([0, 0, 0, 0, 0, 0, 0, 11, 13]),
+    )
     if refsem.domain_product(decls) > 1024:
         decls = [d if d["t"] == "b" or d["hi"] - d["lo"] < 6 else {"t": "i", "lo": d["lo"], "hi": d["lo"] + 5} for d in decls]
         while refsem.domain_product(decls) > 1024:
@@ -263,7 +269,7 @@ def run(sc) -> RunResult:
                         res.states.add(hashlib.sha256(repr((decls, sorted(keys), M)).encode()).hexdigest()[:16])
                         if keys and 0 < len(M) < total:
                             res.nontrivial = True
-                        res.hit("backend_calls_per_solve:" + (str(calls) if calls < 6 else "6+"))
+                        res.hit("backend_calls_per_solve:" + (str(calls) if calls < 6 else "6-8" if calls <= 8 else "9-12" if calls <= 12 else "13+"))
                         if not M:
                             res.hit("probe:unsat")
                         elif keys:
